@@ -67,6 +67,17 @@ fn main() {
         "timestamps" => timestamps::main(&args),
         "summary" => summary::main(&args),
         "summary-random" => summary::random_main(&args),
+        "repr" => {
+            // representability facts (reference encoder) for the characters the bounded models use
+            for cp in [65001i64, 1252, 932, 936, 949, 950, 951, 20127] {
+                let v: Vec<String> = [233u32, 12354, 20013].iter().map(|c| {
+                    let s = char::from_u32(*c).unwrap().to_string();
+                    format!("{}:{}", c, codec::ref_encode(cp, &s).map(|b| b != b"?").unwrap_or(false))
+                }).collect();
+                println!("REPR {} {}", cp, v.join(" "));
+            }
+            0
+        }
         "validity-trace" => validity::trace_main(&args),
         other => {
             eprintln!("unknown command {}", other);
